@@ -131,6 +131,15 @@ def step (line : String) : String :=
       let d := from68 w
       s!"ok {w} {d.m} {d.e}"
     | _, _ => "bad-op"
+  | ["label", mnems, lab] =>
+    -- `TableRow._getByLable(lab)` on a row whose cells carry these mnemonics: index of the cell or N (KeyError)
+    match allSome ((splitList "," mnems).map unhex), unhex lab with
+    | some ms, some lab =>
+      let row : List Cb := (ms.zipIdx).map (fun p => ⟨if p.2 = 0 then 0 else 69, 65, 0, p.2, p.1, spaces4, none⟩)
+      match getByLabel row lab with
+      | some c => s!"ok {c.cat}"
+      | none => "ok N"
+    | _, _ => "bad-op"
   | ["mnem", h] =>
     match unhex h with
     | some b => "ok " ++ hex (mnemNorm b)
